@@ -112,6 +112,29 @@ def injections(cfg):
                 c = copy.deepcopy(cfg)
                 inject(c, name, s)
                 yield ('single:%s' % s[0], c)
+    # two conflicts at once (a second name `b`, or a reserved name misused as well): still a NameError
+    seconds = [(('url',), ('app_res',)), (('url',), ('route_res',))]
+    mwsrc = [x for x in srcs if x[0] == 'mw']
+    if mwsrc:
+        seconds.append((('app_res',), mwsrc[0]))
+        seconds.append((mwsrc[0], mwsrc[-1]))
+    for s1, s2 in itertools.combinations_with_replacement(srcs, 2):
+        if s1 == s2 and s1[0] != 'mw':
+            continue
+        if s1[0].endswith('_res') and s2[0].endswith('_res'):
+            continue
+        for t1, t2 in seconds:
+            c = copy.deepcopy(cfg)
+            inject(c, 'a', s1)
+            inject(c, 'a', s2)
+            inject(c, 'b', t1)
+            inject(c, 'b', t2)
+            yield ('double:%s+%s' % (s1[0], s2[0]), c)
+        c = copy.deepcopy(cfg)
+        inject(c, 'a', s1)
+        inject(c, 'a', s2)
+        inject(c, 'request', ('url',))
+        yield ('double-reserved:%s+%s' % (s1[0], s2[0]), c)
 
 
 def misplacements(cfg):
